@@ -63,6 +63,7 @@ theorem C18_facts :
     -- cookie loop: `params := marshalForCookie(); secret := effectiveCookieSecret();
     --               if <cond> { …send HVR…; continue }; break`
     ∧ Facts.dtlcp.cookieLoopShape = true ∧ Facts.dtlcp.cookieLoopDropsLeftover = true
+    ∧ Facts.dtlcp.cookieWaitTimeoutCalls = []
     ∧ Facts.dtlcp.cookieLoopHvrCond =
         "len(clientHello.cookie) == 0 || !verifyCookie(secret, c.remoteAddr.String(), params, clientHello.cookie)"
     ∧ Facts.dtlcp.cookieLoopIssue = "generateCookie(secret, c.remoteAddr.String(), params)"
@@ -220,8 +221,9 @@ example : (decodeCore (encodeBody ⟨0x0101, List.replicate 32 0, [], [], []⟩ 
 
 /-! ### what happens before a valid cookie -/
 
-/-- Cookie loop of `serverHandshake` (its shape is pinned by `C18_facts`): for every sequence
-of received hellos, every reaction before the loop exits is exactly one HelloVerifyRequest,
+/-- Cookie loop of `serverHandshake` (its shape is pinned by `C18_facts`, including that the
+read-timeout branch of `readNextClientHello` makes no call, i.e. one reply per received hello
+and none while the peer is silent): for every sequence of received hellos, every reaction before the loop exits is exactly one HelloVerifyRequest,
 the loop exits only on a hello whose cookie is non-empty and valid, and nothing that selects
 a certificate, uses a private key or starts key agreement is reachable before the exit while
 all of it is reachable after. -/
@@ -232,7 +234,7 @@ theorem C18_pre_cookie_actions (inp : List (Bool × Bool)) :
     ∧ ((∀ e ∈ inp, e ≠ (false, true)) → runLoop macLen inp = (inp.map fun _ => .hvr macLen, false))
     ∧ (∀ f ∈ commitCalls, f ∉ Facts.dtlcp.cookiePreReachable ∧ f ∈ Facts.dtlcp.cookiePostOnlyReachable)
     ∧ Facts.dtlcp.cookiePreHandshakeWrites = ["helloVerifyRequestMsg"] := by
-  refine ⟨?_, ?_, ?_, C18_facts.2.2.2.2.2.2.2.2.2.2.2.2.2.2.2.2.2.2.1, C18_facts.2.2.2.2.2.2.2.2.2.2.2.2.2.2.2.2.2.1⟩
+  refine ⟨?_, ?_, ?_, C18_facts.2.2.2.2.2.2.2.2.2.2.2.2.2.2.2.2.2.2.2.1, C18_facts.2.2.2.2.2.2.2.2.2.2.2.2.2.2.2.2.2.2.1⟩
   · induction inp with
     | nil => intro a ha; simp [runLoop] at ha
     | cons x xs ih =>
